@@ -58,3 +58,22 @@ Example C11_example_sigma :
   UStr.u_lower [913; 931]%N = [945; 962]%N /\ UStr.u_lower [945; 962]%N = [945; 962]%N /\
   UStr.u_upper [223]%N = [83; 83]%N.
 Proof. vm_compute. auto. Qed.
+
+(* a mixed chain whose composition in the declared order is idempotent although the custom step
+   alone does not commute with trim: sanitize(with = |s| s.chars().take(n).collect(), trim).
+   (Hoisting trim in front of the custom step breaks this: " ab cd" would be stored as "ab ".) *)
+From NV Require Lemmas.MixedChainLemmas.
+Theorem C11_take_then_trim_idempotent :
+  forall (lib : fnlib) (d : decl) (f : fnref) (n : nat),
+    l_trim lib = UStr.u_trim ->
+    d_sans d = [SWith f; STrim] ->
+    (forall s, l_san lib (fn_id f) (VS s) = VS (firstn n s)) ->
+    forall s, spec_sanitize lib d (spec_sanitize lib d (VS s)) = spec_sanitize lib d (VS s).
+Proof. exact MixedChainLemmas.take_trim_chain_idempotent. Qed.
+Print Assumptions C11_take_then_trim_idempotent.
+
+(* the reverse order is NOT idempotent: trim, then the first three chars of " ab cd"... *)
+Example C11_trim_then_take_not_idempotent :
+  let once := firstn 3 (UStr.u_trim [97; 98; 32; 99]%N) in
+  once = [97; 98; 32]%N /\ firstn 3 (UStr.u_trim once) = [97; 98]%N.
+Proof. vm_compute. auto. Qed.
